@@ -378,7 +378,8 @@ void zzDivMod(word b[], const word divident[], const word a[],
 	if (!wwIsW(u, nu, 1))
 		wwSetZero(b, n);
 	// здесь da * a == divident \mod mod
-	wwCopy(b, da, n);
+	else
+		wwCopy(b, da, n);
 	// очистка
 	nu = nv = 0;
 }
@@ -506,7 +507,10 @@ size_t zzAlmostInvMod(word b[], const word a[], const word mod[], size_t n,
 	EXPECT(wwIsW(v, nv, 1));
 	// \gcd(a, mod) != 1? b <- 0
 	if (!wwIsW(v, nv, 1))
+	{
 		wwSetZero(b, n);
+		return k;
+	}
 	// da >= mod => da -= mod
 	if (wwCmp2(da, n + 1, mod, n) >= 0)
 		da[n] -= zzSub2(da, mod, n);
